@@ -657,7 +657,7 @@ pub fn run(ctx: &Ctx, st: &mut Stats) {
         serde_json::json!({"fixed_trees": nt, "component_alphabet": na, "patterns_per_tree": per_tree, "cases": total}),
     );
 
-    let n = ctx.tier.pick(150_000, 5_000_000);
+    let n = ctx.tier.pick(400_000, 5_000_000);
     GLOB_R.run_random(ctx, st, n, arb_case);
 }
 
